@@ -214,6 +214,10 @@ def check_headers(case, o, fa):
                 bad.append({'kind': 'not-witness', 'entry': ent, 'pep': pep, 'why': why, 'boundary_only': bool(ok_any),
                             'repair': minimal_repair(bb, set(named), lim, flags, pep),
                             'circular': bb.circular, 'circle_nt': len(bb.seq) if bb.circular else None,
+                            # a named record that exists on this backbone only INSIDE the donor segment of an AS insertion / substitution
+                            'names_nested_record': any(
+                                any(y in e.ids for e in bb.edits) and all(e.tag == 'nested-donor' for e in bb.edits if y in e.ids)
+                                for y in named),
                             'fusion_donor_fs': bb.kind == 'fusion' and any(
                                 e.side == 1 and (len(e.alt) - (e.end - e.start)) % 3 != 0 for e in bb.edits)})
     return {'n': n, 'bad': bad}
